@@ -200,7 +200,7 @@ def judge_c07(H):
         bound = T.txn_bound(P) * 4
         legal = _legal_flags(H)
         for o, is_legal in zip(H["ops"], legal):
-            if not is_legal or _name(o["op"]) in ("sleep", "move"):
+            if not is_legal or _name(o["op"]) in ("sleep", "move", "gmove"):
                 continue
             st["bounded_completion_checked"] += 1
             if o["outcome"] == "hung" or (o["t_ret"] - o["t_call"]) > bound:
